@@ -30,6 +30,9 @@ MODS = [
     # ranges written high-to-low: the loader accepts them and they match nothing - before and after the migration alike
     ('[amount:100-50]', [('amt', 'range', 100.0, 50.0)]),
     ('[date:2025-01-31..2025-01-01]', [('date', 'range', (2025, 1, 31), (2025, 1, 1))]),
+    # a range that ends on 28 February of a leap year does not contain the 29th; whole months / years written as ranges
+    ('[date:2024-02-01..2024-02-28]', [('date', 'range', (2024, 2, 1), (2024, 2, 28))]),
+    ('[date:2025-01-01..2025-12-31]', [('date', 'range', (2025, 1, 1), (2025, 12, 31))]),
 ]
 CORE_MODS = [0, 1, 5, 8, 11]
 PROFILES = [('C1', 'S1', ['ta']), ('C2', '', []), ('', '', ['tb'])]
@@ -38,7 +41,7 @@ CATS = {'C1': 'Food & Drink', 'C2': 'Repairs #2 Elm St', '': ''}
 SUBS = {'S1': 'Unit #1: "A"', '': ''}
 TAGS = {'ta': 'Recurring', 'tb': 'acct #7'}
 DESCS = ['ALFA STORE', 'ALFA  STORE 12', 'BETA.STORE', 'ALFA "Q" STORE', 'XALFA', 'alfa store 9', "O'K CORRAL", 'ZULU']
-AMT_DATES = [(49.99, (2025, 1, 15)), (50.0, (2024, 12, 31)), (99.99, (2025, 1, 1)), (99.995, (2025, 1, 15)), (100.0, (2025, 1, 31)),
+AMT_DATES = [(75.0, (2024, 2, 29)), (75.0, (2024, 2, 28)), (49.99, (2025, 1, 15)), (50.0, (2024, 12, 31)), (99.99, (2025, 1, 1)), (99.995, (2025, 1, 15)), (100.0, (2025, 1, 31)),
              (100.005, (2025, 2, 1)), (100.01, (2025, 1, 15)), (150.0, (2025, 1, 20)), (15.995, (2025, 1, 15)), (15.99, (2025, 3, 3))]
 
 
